@@ -124,6 +124,38 @@ def refine_per_cell(S, k, fixed, lv):
              and a._allocations[0].alloc is cell[1] and len(cell[1]) == k)
 
 
+@contract(P, functions=[A + "refine", A + "must_be_refined"], params=[dict(k=k, lv=lv) for k in (1, 2) for lv in ("sym", 1)])
+def refine_decides_on_the_cell_as_it_is_when_called(S, k, lv):
+    """added after seed C02-11 (split decisions memoised per threshold): the cells of fixed modules are marked IN PLACE
+    (Allocation.initial_allocation / _detect_fixed_rectangles set rect.fixed on the cell objects of an existing allocation), possibly
+    after the allocation was already queried or refined with the same threshold.  What refine() does depends on the cell as it is
+    when refine() is called: a cell that is fixed then is never cut, whatever was asked before."""
+    _flatmap_or_skip(S, Allocation.refine)
+    set_eps(S)
+    cell = mk_cell(S, "c", k, False)
+    t = S.real("t")
+    levels = S.int("levels", lo=1) if lv == "sym" else lv
+    a = bare_allocation([cell])
+    S.patch(amod, "Allocation", Capture)
+    if lv == "sym" and S.mode == "sym":
+        S.patch(Allocation, "_split_allocation", staticmethod(split_stub(S)))
+    before = S.choice("asked_before", ["nothing", "must_be_refined", "refine", "both"])
+    if before in ("must_be_refined", "both"):
+        q = S.call(a.must_be_refined, t)
+        S.ensure("refine_state.query_no_raise", q.ok)
+    if before in ("refine", "both"):
+        q = S.call(a.refine, t, 1)
+        S.ensure("refine_state.earlier_refine_no_raise", q.ok)
+    cell[0].fixed = True            # the cell now belongs to a fixed module
+    out = S.call(a.refine, t, levels)
+    S.ensure("refine_state.no_raise", out.ok)
+    if not out.ok:
+        return
+    _per_cell_post(S, "refine_state", cell, None, levels, out.value.captured)
+    m = S.call(a.must_be_refined, t)
+    S.ensure("refine_state.fixed_cell_demands_no_refinement", m.ok and m.value is False)
+
+
 @contract(P, functions=[A + "refine"])
 def refine_rejects_nonpositive_levels(S):
     cell = mk_cell(S, "c", 1)
